@@ -1,6 +1,7 @@
 /* LD_PRELOAD shim: log / fail the n-th journal syscall (write, fsync, fdatasync, ftruncate).
  *   VERIF_SHIM_LOG=<file>     append one line per intercepted call on a journal file
- *   VERIF_SHIM_FAIL=<n>:<errno>[:short=<k>]   the n-th (1-based) journal syscall fails with errno
+ *   VERIF_SHIM_FAIL=<n>:<errno>[:short=<k>][:once]   the n-th (1-based) journal syscall fails with errno
+ *                                             (and every later one too, unless `once`)
  *                                             (a write first transfers k bytes, then later ones fail)
  *   VERIF_SHIM_KILL=<n>       _exit(137) right before the n-th journal syscall
  *   VERIF_SHIM_ARM_FILE=<p>   numbering / logging / faults start once this file exists
@@ -19,7 +20,7 @@
 
 static int jfd[4096];
 static long counter = 0;
-static long fail_at = -1, fail_errno = 5, short_k = -1, kill_at = -1;
+static long fail_at = -1, fail_errno = 5, short_k = -1, kill_at = -1, fail_once = 0;
 static int logfd = -1;
 static int inited = 0;
 static int armed = 0;
@@ -51,7 +52,7 @@ static void init(void) {
     if (f) {
         fail_at = atol(f);
         const char *c = strchr(f, ':');
-        if (c) { fail_errno = atol(c + 1); const char *s = strstr(c + 1, "short="); if (s) short_k = atol(s + 6); }
+        if (c) { fail_errno = atol(c + 1); const char *s = strstr(c + 1, "short="); if (s) short_k = atol(s + 6); if (strstr(c + 1, "once")) fail_once = 1; }
     }
     arm_file = getenv("VERIF_SHIM_ARM_FILE");
     if (!arm_file) armed = 1;
@@ -128,7 +129,7 @@ static int gate(void) {
     if (!is_armed()) return 0;
     counter++;
     if (kill_at > 0 && counter == kill_at) _exit(137);
-    if (fail_at > 0 && counter >= fail_at) return 1;
+    if (fail_at > 0 && (fail_once ? counter == fail_at : counter >= fail_at)) return 1;
     return 0;
 }
 
